@@ -225,11 +225,12 @@ func ZZ_C04_NM_MapOrder() {
 			zzsym.Cover("order-PeerPoolMap")
 		}
 	} else {
-		p := zzC04Signs(N)
+		NS := zzsym.Param("NS") // signer count (its own bound: ordering 40-character symbolic hex strings is costly)
+		p := zzC04Signs(NS)
 		a := append([]byte(nil), zzC04Enc(p.Serialization)...)
 		b := zzC04Enc(p.Serialization)
 		zzsym.Assert(bytes.Equal(a, b), "ConsensusSigns encodes to the same bytes regardless of map iteration order")
-		if len(p.SignsMap) == N {
+		if len(p.SignsMap) == NS {
 			zzsym.Cover("order-ConsensusSigns")
 		}
 	}
